@@ -1278,6 +1278,22 @@ func c16ProducerOK(r *Run, fn *ssa.Function, good, pending map[*ssa.Function]boo
 		if !reached[rt.Block()] {
 			continue
 		}
+		// a call through a constant table of functions / a function parameter: every possible callee is a checked producer
+		dynGood := func(c *ssa.Call) (bool, string) {
+			if staticCallee(&c.Call) != nil {
+				return false, ""
+			}
+			fs, ok := dDynCallees(r.Prog, c)
+			if !ok {
+				return false, ""
+			}
+			for _, f := range fs {
+				if !(good[f] || pending[f]) {
+					return false, "returns the result of a table of functions containing " + shortFunc(f) + ", which is not shown to initialise NewStatus"
+				}
+			}
+			return true, ""
+		}
 		var check func(v ssa.Value, depth int) (bool, string)
 		check = func(v ssa.Value, depth int) (bool, string) {
 			switch x := unwrap(v).(type) {
@@ -1304,11 +1320,21 @@ func c16ProducerOK(r *Run, fn *ssa.Function, good, pending map[*ssa.Function]boo
 				if callee := staticCallee(&x.Call); callee != nil && (good[callee] || pending[callee]) {
 					return true, ""
 				}
+				if okd, w := dynGood(x); okd {
+					return true, ""
+				} else if w != "" {
+					return false, w
+				}
 				return false, "returns the result of " + calleeName(&x.Call) + ", which is not shown to initialise NewStatus"
 			case *ssa.Extract:
 				if c, ok := x.Tuple.(*ssa.Call); ok && x.Index == 0 {
 					if callee := staticCallee(&c.Call); callee != nil && (good[callee] || pending[callee]) {
 						return true, ""
+					}
+					if okd, w := dynGood(c); okd {
+						return true, ""
+					} else if w != "" {
+						return false, w
 					}
 					return false, "returns the result of " + calleeName(&c.Call) + ", which is not shown to initialise NewStatus"
 				}
@@ -1352,6 +1378,28 @@ func c16DispatchExhaustive(r *Run, fn *ssa.Function) (bool, string) {
 		var field []string
 		var owner *types.Named
 		for _, f := range p.Facts {
+			// `_, found := table[role]` with found == false: the role is none of the table's keys
+			if ex, isEx := f.V.(*ssa.Extract); isEx && ex.Index == 1 && !f.Pol {
+				if lk, isLk := ex.Tuple.(*ssa.Lookup); isLk && lk.CommaOk {
+					if ld, isLd := unwrap(lk.X).(*ssa.UnOp); isLd && ld.Op == token.MUL {
+						if g, isG := ld.X.(*ssa.Global); isG {
+							if keys, okk := dTableKeys(r.Prog, g); okk {
+								if u, isLoad := unwrap(lk.Index).(*ssa.UnOp); isLoad {
+									if fa, isFA := u.X.(*ssa.FieldAddr); isFA {
+										if n := dNamedOf(fa.X.Type()); n != nil && (owner == nil || (owner == n && field[0] == fieldName(fa))) {
+											owner, field = n, []string{fieldName(fa)}
+											for _, kx := range keys {
+												excluded[kx] = true
+											}
+										}
+									}
+								}
+							}
+						}
+					}
+				}
+				continue
+			}
 			bo, ok := f.V.(*ssa.BinOp)
 			if !ok || f.Pol || (bo.Op != token.EQL && bo.Op != token.NEQ) {
 				continue
@@ -1500,6 +1548,18 @@ func c16IdentityOrDefault(r *Run, fn *ssa.Function, i int) bool {
 			return false
 		}
 		res := unwrap(p.Resolve(ret.Results[0]))
+		// see through helpers that hand their argument back
+		for d := 0; d < 4; d++ {
+			c, isCall := res.(*ssa.Call)
+			if !isCall {
+				break
+			}
+			k := c16ReturnsParam(staticCallee(&c.Call), 0)
+			if k < 0 || k >= len(c.Call.Args) {
+				break
+			}
+			res = unwrap(p.Resolve(c.Call.Args[k]))
+		}
 		if res == ssa.Value(p0) {
 			continue
 		}
@@ -1509,6 +1569,56 @@ func c16IdentityOrDefault(r *Run, fn *ssa.Function, i int) bool {
 		return false
 	}
 	return true
+}
+
+// c16ReturnsParam: every return of fn hands back the same parameter (directly, or through a callee
+// that does so); returns its index, -1 otherwise.
+func c16ReturnsParam(fn *ssa.Function, depth int) int {
+	if fn == nil || len(fn.Blocks) == 0 || depth > 3 || fn.Signature.Results().Len() != 1 {
+		return -1
+	}
+	idx := -1
+	for _, rt := range dNormalReturns(fn) {
+		k := c16AliasOfParam(fn, rt.Results[0], depth)
+		if k < 0 || (idx >= 0 && idx != k) {
+			return -1
+		}
+		idx = k
+	}
+	return idx
+}
+
+// c16AliasOfParam: v is parameter #k of fn, or a phi of it and fresh allocations ("the argument, or
+// a new object if it was nil"), or the result of a callee that hands such a value back.
+func c16AliasOfParam(fn *ssa.Function, v ssa.Value, depth int) int {
+	switch x := unwrap(v).(type) {
+	case *ssa.Parameter:
+		if x.Parent() == fn {
+			return paramIndex(x)
+		}
+	case *ssa.Phi:
+		idx := -1
+		for _, e := range x.Edges {
+			if _, isA := e.(*ssa.Alloc); isA {
+				continue
+			}
+			p, ok := e.(*ssa.Parameter)
+			if !ok || p.Parent() != fn || (idx >= 0 && idx != paramIndex(p)) {
+				return -1
+			}
+			idx = paramIndex(p)
+		}
+		return idx
+	case *ssa.Call:
+		if depth > 3 {
+			return -1
+		}
+		k := c16ReturnsParam(staticCallee(&x.Call), depth+1)
+		if k >= 0 && k < len(x.Call.Args) {
+			return c16AliasOfParam(fn, x.Call.Args[k], depth+1)
+		}
+	}
+	return -1
 }
 
 func c16GuardedStores(r *Run) {
@@ -1922,6 +2032,29 @@ func (ai *c16AI) run(fn *ssa.Function, keys []c16Key, in map[string]bool, depth 
 		}
 		return -1
 	}
+	// local pointers that stand for a parameter "or a new object if it was nil"
+	alias := map[ssa.Value]int{}
+	for _, b := range fn.Blocks {
+		for _, in := range b.Instrs {
+			if phi, ok := in.(*ssa.Phi); ok {
+				hasAlloc := false
+				for _, e := range phi.Edges {
+					if _, isA := e.(*ssa.Alloc); isA {
+						hasAlloc = true
+					}
+				}
+				if k := c16AliasOfParam(fn, phi, 0); k >= 0 && hasAlloc {
+					alias[phi] = k
+				}
+			}
+		}
+	}
+	pidx := func(root ssa.Value) int {
+		if k, ok := alias[root]; ok {
+			return k
+		}
+		return c16ParamIdx(fn, root)
+	}
 	state := map[*ssa.BasicBlock]map[string]bool{fn.Blocks[0]: {}}
 	for t := range in {
 		state[fn.Blocks[0]][t] = true
@@ -2056,7 +2189,7 @@ func (ai *c16AI) run(fn *ssa.Function, keys []c16Key, in map[string]bool, depth 
 			case *ssa.UnOp:
 				if x.Op == token.MUL {
 					root, path := accessPath(x.X)
-					if pi := c16ParamIdx(fn, root); pi >= 0 {
+					if pi := pidx(root); pi >= 0 {
 						if ki := keyIndex(pi, path); ki >= 0 {
 							valid[x] = ki
 						}
@@ -2064,7 +2197,52 @@ func (ai *c16AI) run(fn *ssa.Function, keys []c16Key, in map[string]bool, depth 
 				}
 			case *ssa.Store:
 				root, path := accessPath(x.Addr)
-				pi := c16ParamIdx(fn, root)
+				pi := pidx(root)
+				// field = helper(field, …) where the helper hands back its argument, or a new object if it was nil,
+				// after working on it: the helper's effect on the object applies to the field
+				if pi >= 0 {
+					if hc, isCall := unwrap(x.Val).(*ssa.Call); isCall {
+						if h := staticCallee(&hc.Call); h != nil && len(h.Blocks) > 0 {
+							if j := c16ReturnsParam(h, 0); j >= 0 && j < len(hc.Call.Args) {
+								ar, ap := accessPath(hc.Call.Args[j])
+								_, isLoad := hc.Call.Args[j].(*ssa.UnOp)
+								if isLoad && pidx(ar) == pi && c16PathEq(ap, path) {
+									var kis []int
+									var ckeys []c16Key
+									for ki, k := range keys {
+										if k.Param == pi && c16HasPrefix(k.Path, path) {
+											kis = append(kis, ki)
+											ckeys = append(ckeys, c16Key{j, k.Path[len(path):]})
+										}
+									}
+									if len(kis) > 0 {
+										next := map[string]bool{}
+										for enc := range cur {
+											t := strings.Split(enc, c16Sep)
+											sub := make([]string, len(kis))
+											for i, ki := range kis {
+												sub[i] = t[ki]
+											}
+											for o := range ai.post(h, ckeys, map[string]bool{strings.Join(sub, c16Sep): true}, depth+1) {
+												ot := strings.Split(o, c16Sep)
+												t2 := append([]string{}, t...)
+												for i, ki := range kis {
+													t2[ki] = ot[i]
+												}
+												next[strings.Join(t2, c16Sep)] = true
+											}
+										}
+										cur = next
+										for _, ki := range kis {
+											invalidate(ki)
+										}
+									}
+									continue
+								}
+							}
+						}
+					}
+				}
 				if pi < 0 {
 					switch root.(type) {
 					case *ssa.Alloc, *ssa.Global, *ssa.MakeMap:
@@ -2121,12 +2299,12 @@ func (ai *c16AI) run(fn *ssa.Function, keys []c16Key, in map[string]bool, depth 
 						continue
 					}
 					root, path := accessPath(a)
-					pi := c16ParamIdx(fn, root)
+					pi := pidx(root)
 					if pi < 0 {
 						// a local copy `x := obj.F; if x == nil { x = &T{}; obj.F = x }`: the phi stands for the current value of obj.F
 						if r2, p2, ok := c16PhiAlias(fn, a); ok {
 							root, path = r2, p2
-							pi = c16ParamIdx(fn, root)
+							pi = pidx(root)
 						}
 						if pi < 0 {
 							continue
@@ -2218,6 +2396,16 @@ func (ai *c16AI) run(fn *ssa.Function, keys []c16Key, in map[string]bool, depth 
 					ki, ok = valid[a]
 				}
 				if !ok {
+					// the parameter itself (or its "or new" alias), when its nil-ness is tracked
+					if k := pidx(unwrap(a)); k >= 0 {
+						if _, isLoad := unwrap(a).(*ssa.UnOp); !isLoad {
+							if kk := keyIndex(k, nil); kk >= 0 {
+								ki, ok = kk, true
+							}
+						}
+					}
+				}
+				if !ok {
 					return -1
 				}
 				atom := t[ki]
@@ -2259,6 +2447,47 @@ func (ai *c16AI) run(fn *ssa.Function, keys []c16Key, in map[string]bool, depth 
 		}
 		last := b.Instrs[len(b.Instrs)-1]
 		push := func(s *ssa.BasicBlock, ts map[string]bool) {
+			// entering a block where an alias phi takes a fresh allocation on this edge: from here on the
+			// tracked keys of that parameter describe the new object
+			for _, in := range s.Instrs {
+				phi, ok := in.(*ssa.Phi)
+				if !ok {
+					break
+				}
+				pi, isAlias := alias[phi]
+				if !isAlias {
+					continue
+				}
+				for ei, pb := range s.Preds {
+					al, isA := phi.Edges[ei].(*ssa.Alloc)
+					if pb != b || !isA {
+						continue
+					}
+					nts := map[string]bool{}
+					for enc := range ts {
+						t := strings.Split(enc, c16Sep)
+						for ki, k := range keys {
+							if k.Param != pi {
+								continue
+							}
+							if len(k.Path) == 0 {
+								t[ki] = "nonnil"
+								continue
+							}
+							dom := domains[ki]
+							if sv := c16AllocFieldStore(al, k.Path); sv != nil {
+								if as := abs(sv, t, dom, 0); len(as) == 1 {
+									t[ki] = as[0]
+									continue
+								}
+							}
+							t[ki] = dom[0]
+						}
+						nts[strings.Join(t, c16Sep)] = true
+					}
+					ts = nts
+				}
+			}
 			if state[s] == nil {
 				state[s] = map[string]bool{}
 			}
@@ -3929,6 +4158,35 @@ func c16CalleeYieldsNonNilD(r *Run, fn *ssa.Function, i int, known []c16SiblingK
 						}
 					}
 					if ok2, _ := c16CalleeYieldsNonNilD(r, callee2, ex.Index, known2, depth+1); ok2 {
+						continue
+					}
+				}
+			}
+		}
+		// the result of a call through a constant table of functions: every possible callee yields non-nil
+		if depth < 3 {
+			var dc *ssa.Call
+			didx := 0
+			switch y := res.(type) {
+			case *ssa.Call:
+				dc = y
+			case *ssa.Extract:
+				dc, _ = y.Tuple.(*ssa.Call)
+				didx = y.Index
+			}
+			if dc != nil && staticCallee(&dc.Call) == nil {
+				if fs, okd := dDynCallees(r.Prog, dc); okd {
+					all := true
+					for _, f2 := range fs {
+						if !r.Prog.IsRepoFunc(f2) || len(f2.Blocks) == 0 {
+							all = false
+							break
+						}
+						if ok2, _ := c16CalleeYieldsNonNilD(r, f2, didx, nil, depth+1); !ok2 {
+							all = false
+						}
+					}
+					if all && len(fs) > 0 {
 						continue
 					}
 				}
